@@ -18,8 +18,8 @@ import (
 )
 
 type gateState struct {
-	mu       sync.Mutex
-	returned map[uint64]*atomic.Int64 // per transaction: answers of the class that goes first
+	mu                                   sync.Mutex
+	returned                             map[uint64]*atomic.Int64 // per transaction: answers of the class that goes first
 	missingFirst, presentFirst, timeouts atomic.Int64
 }
 
